@@ -16,16 +16,16 @@ for prop in $PROPS; do
   src=$MUTSRC/$prop/h
   [ -f $src/patch.diff ] || { echo "$prop-h: no patch"; continue; }
   git -C $SR checkout -q -- . ; git -C $SR clean -fdq
-  if ! git -C $SR apply $src/patch.diff 2>/tmp/harm_apply.log; then echo "$prop-h: patch does not apply"; continue; fi
-  (cd $SR && go build ./... >/tmp/harm_build.log 2>&1); build_rc=$?
+  if ! git -C $SR apply $src/patch.diff 2>/tmp/harm${TAG:-}_apply.log; then echo "$prop-h: patch does not apply"; continue; fi
+  (cd $SR && go build ./... >/tmp/harm${TAG:-}_build.log 2>&1); build_rc=$?
   suite_rc=1; attempts=0
   while [ $suite_rc -ne 0 ] && [ $attempts -lt 3 ]; do
     attempts=$((attempts+1))
-    (cd $SR && go test -vet=off -count=1 ./... >/tmp/harm_suite.log 2>&1); suite_rc=$?
+    (cd $SR && go test -vet=off -count=1 ./... >/tmp/harm${TAG:-}_suite.log 2>&1); suite_rc=$?
   done
-  (cd $VW && VERIF_REPO=$SR ./check $prop quick >/tmp/harm_check.log 2>&1); check_rc=$?
-  viol=$(grep '^VIOLATION\|^CHECK-ERROR' /tmp/harm_check.log | head -3 | tr '\n' ';')
-  replay=$(grep -m1 '^VIOLATION' /tmp/harm_check.log | sed -n 's/.*replay=\([^ ]*\).*/\1/p')
+  (cd $VW && VERIF_REPO=$SR ./check $prop quick >/tmp/harm${TAG:-}_check.log 2>&1); check_rc=$?
+  viol=$(grep '^VIOLATION\|^CHECK-ERROR' /tmp/harm${TAG:-}_check.log | head -3 | tr '\n' ';')
+  replay=$(grep -m1 '^VIOLATION' /tmp/harm${TAG:-}_check.log | sed -n 's/.*replay=\([^ ]*\).*/\1/p')
   clause=""
   if [ -n "$replay" ] && [ -f "$replay" ]; then
     clause=$(python3 -c "import json; r=json.load(open('$replay')); print(r.get('kind',''),'::',(r.get('clause') or r.get('theorem') or r.get('correspondence') or '')[:300])")
